@@ -21,7 +21,7 @@ import vf, _fileaccess as F
 SLOTS_Q = [["r", "a"], ["r", "b"], ["r", "a", "a"]]
 SLOTS_T = [["r", "a"], ["r", "b"], ["r", "a", "a"], ["r", "a", "b"], ["r", "b", "a"]]
 LT_Q = [["abs", "o"], ["abs", "o", "a"], ["rel", "..", "o"], ["rel", "b"], ["abs", "o", "z"]]
-LT_T = LT_Q + [["abs", "r", "b"], ["rel", ".."]]
+LT_T = LT_Q + [["abs", "r", "b"], ["rel", "..", "b"]]   # no target resolving to the world root (not modelled)
 PAT_ALL = [[], [["abs", "r"]], [["abs", "r", "*"]], [["abs", "r", "**"]], [F.WILD], [["abs", "r", "a"]]]
 REQ_Q = [["abs", "r"], ["abs", "r", "a"], ["abs", "r", "b"], ["abs", "r", "a", "a"], ["abs", "r", "a", "b", "a"],
          ["abs", "o", "a"], ["abs", "r", "..", "o", "a"], ["rel", "r", "a"], ["abs", "r", "^A"]]
